@@ -1454,6 +1454,14 @@ class _IndexGOMixin:
         Args:
             values: can be a generator.
         '''
+        # collect and check all values before appending any, so that a rejected call leaves the index unchanged
+        values = list(values)
+        observed: tp.Set[tp.Hashable] = set()
+        for value in values:
+            if self.__contains__(value) or value in observed: #type: ignore
+                raise KeyError(f'duplicate key append attempted: {value}')
+            observed.add(value)
+
         for value in values:
             self.append(value)
 
